@@ -219,6 +219,10 @@ def _ex(e):
         p = PREC[e[1]]
         return ex(e[2], p) + " " + OPTXT[e[1]] + " " + ex(e[3], p + 1)
     if k == "neg":
+        # `-name(` and `-name` are identifiers in Sass, so a minus in front of anything that
+        # starts with a letter needs parentheses
+        if e[1][0] in ("call", "if", "str", "interp", "bool", "null"):
+            return "-(" + _ex(e[1]) + ")"
         return "-" + ex(e[1], P_UNARY + 1)
     if k == "not":
         return "not " + ex(e[1], P_UNARY)
@@ -228,7 +232,7 @@ def _ex(e):
             if len(es) == 1 and sep == "c":
                 return "[" + ex(es[0], P_SPACE) + ",]"
             inner = (", " if sep == "c" else " ").join(
-                ex(x, P_SPACE if sep == "c" else P_UNARY + 1 if _needs_guard(x) else P_SPACE + 1) for x in es)
+                ex(x, P_SPACE if sep == "c" else P_ATOM if (i > 0 and _needs_guard(x)) else P_SPACE + 1) for i, x in enumerate(es))
             return "[" + inner + "]"
         if len(es) == 0:
             return "()"
@@ -238,7 +242,7 @@ def _ex(e):
             return ", ".join(ex(x, P_SPACE) for x in es)
         # space list: elements must bind tighter than a space list; a leading unary minus would be
         # read as a binary minus after another element, so such elements are parenthesised
-        return " ".join(ex(x, P_UNARY + 1 if (i > 0 and _needs_guard(x)) else P_SPACE + 1) for i, x in enumerate(es))
+        return " ".join(ex(x, P_ATOM if (i > 0 and _needs_guard(x)) else P_SPACE + 1) for i, x in enumerate(es))
     if k == "map":
         return "(" + ", ".join(ex(a, P_SPACE) + ": " + ex(b, P_SPACE) for a, b in e[1]) + ")"
     if k == "call":
@@ -252,7 +256,15 @@ def _ex(e):
 
 
 def _needs_guard(x):
-    return prec_of(x) == P_UNARY and not (x[0] == "not")
+    """Would the text of `x` start with a minus sign (read as a binary minus after a list element)?"""
+    k = x[0]
+    if k == "num":
+        return Fraction(x[1]) < 0
+    if k == "neg":
+        return True
+    if k == "bin":
+        return prec_of(x[2]) >= PREC[x[1]] and _needs_guard(x[2])
+    return False
 
 
 def args_text(a):
@@ -588,8 +600,6 @@ class Gen:
                 self.features.add("rest-param")
             elif c < 0.6:
                 rest_e = self.expr(sc, "list", d - 1, pure)
-                if rest_e[0] == "list" and rest_e[2] == "s":
-                    rest_e = ("list", rest_e[1], "c", rest_e[3])      # finding N2: separator of `$l...`
                 self.features.add("rest-arg")
         elif rest is None and ps and npos == len(ps) and not named and r.random() < 0.1 and all(ptypes.get(n) == "num" for n, _ in ps):
             # pass every positional argument through `(a, b, c)...`
@@ -611,6 +621,7 @@ class Gen:
         return self.n_stmts < self.cfg.max_stmts
 
     def block(self, sc, depth, ctx, lo=1, hi=4):
+        ctx = dict(ctx, at_root=False)
         out = []
         n = self.rng.randint(lo, hi)
         for _ in range(n):
@@ -655,7 +666,9 @@ class Gen:
         if depth > 0:
             choices += ["if", "if", "for", "each", "while"]
             if not in_fn:
-                choices += ["rule", "rule", "include", "include"]
+                choices += ["rule", "rule"]
+                if sc.lookup("mixins", lambda n, m: (not m[1]) or in_rule):
+                    choices += ["include"] * 6
                 if not ctx["in_callable_or_ctl"]:
                     choices += ["mixin", "func", "func"]
         if in_fn:
@@ -674,15 +687,20 @@ class Gen:
             if known is not None and known not in TYPES:
                 return None
             ty = known or r.choice(["num", "num", "num", "str", "bool", "list", "map"])
-            glob = r.random() < 0.12
+            glob = r.random() < 0.15
             dflt = r.random() < 0.12
-            e = self.expr(sc, ty, d)
             if glob:
-                self.features.add("!global")
-                sc.root().vars.setdefault(name, ty)
-                if known is None and dict(sc.root().vars).get(name) != ty:
+                # `!global` only on the pre-declared globals g1 (number) and g2 (string), so that
+                # later reads are defined whichever branches ran
+                name = r.choice(["g1", "g2"])
+                ty = "num" if name == "g1" else "str"
+                if sc.root().vars.get(name) != ty:
                     return None
-            else:
+                self.features.add("!global")
+                if dict(sc.lookup("vars")).get(name) == ty and sc.root() is not sc:
+                    self.features.add("global-from-nested")
+            e = self.expr(sc, ty, d)
+            if not glob:
                 if known is None:
                     sc.vars[name] = ty
             if dflt:
@@ -753,6 +771,13 @@ class Gen:
             body = body + (("var", cn, ("bin", "add", ("var", cn), ("num", Fraction(1))), False, False),)
             return [("var", cn, ("num", Fraction(0)), False, False),
                     ("while", ("bin", "lt", ("var", cn), ("num", Fraction(bound))), body)]
+        if k in ("func", "mixin"):
+            return self.callable_stmt(sc, depth, ctx, k)
+        return self.stmt_rest(sc, depth, ctx, k, d)
+
+    def callable_stmt(self, sc, depth, ctx, k):
+        r = self.rng
+        d = min(3, depth + 1)
         if k == "func":
             self.features.add("@function")
             name = self.fresh("f")
@@ -763,9 +788,6 @@ class Gen:
             body = body + (("ret", self.expr(inner, ret, d)),)
             sc.fns[name] = (params, ret, False, ptypes)
             return [("func", name, params, body)]
-        if k == "ret":
-            self.features.add("early-return")
-            return [("ret", self.expr(sc, ctx["ret"], d))]
         if k == "mixin":
             self.features.add("@mixin")
             name = self.fresh("m")
@@ -783,6 +805,14 @@ class Gen:
                 body = body + (self.content_stmt(inner, c2, d),)
             sc.mixins[name] = (params, needs_rule, has_content, carity, ptypes)
             return [("mixin", name, params, body)]
+        return None
+
+    def stmt_rest(self, sc, depth, ctx, k, d):
+        r = self.rng
+        in_rule = ctx["in_rule"]
+        if k == "ret":
+            self.features.add("early-return")
+            return [("ret", self.expr(sc, ctx["ret"], d))]
         if k == "content":
             return [self.content_stmt(sc, ctx, d)]
         if k == "include":
@@ -827,7 +857,7 @@ class Gen:
             kinds += ["invalid-css"]
         if not ctx["in_fn"]:
             kinds += ["ret-outside"]
-        if not ctx["in_rule"] and not ctx["in_fn"] and not ctx["in_mixin"]:
+        if ctx.get("at_root"):
             kinds += ["decl-outside"]
         k = r.choice(kinds)
         self.features.add("error:" + k)
@@ -877,8 +907,21 @@ def has_user_call(e):
 def gen_program(rng, cfg):
     g = Gen(rng, cfg)
     root = Scope(None, "root")
-    ctx = dict(in_rule=False, in_fn=False, in_mixin=False, ret=None, in_callable_or_ctl=False)
+    ctx = dict(in_rule=False, in_fn=False, in_mixin=False, ret=None, in_callable_or_ctl=False, at_root=True)
     body = []
+    if rng.random() < 0.85:
+        root.vars["g1"] = "num"
+        root.vars["g2"] = "str"
+        body += [("var", "g1", ("num", Fraction(rng.randint(0, 5))), False, False),
+                 ("var", "g2", ("str", rng.choice(WORDS), rng.random() < 0.5), False, False)]
+    # a prelude of callables, so that calls and includes are frequent
+    for _ in range(rng.choice([0, 1, 1, 2, 3])):
+        g.n_stmts += 1
+        kind = rng.choice(["func", "mixin"])
+        saved = rng.choice
+        s = g.callable_stmt(root, min(cfg.depth, 3), ctx, kind)
+        if s:
+            body.extend(s)
     n = rng.randint(3, 9)
     for _ in range(n):
         if not g.budget():
@@ -1159,3 +1202,165 @@ D3_TREES = [
     (("global", 1, 5), ("block", "rule", (("each", 1, (6, 7), (("read", 1),)), ("mixin", "m1", (("read", 1), ("assign", 1, 8), ("read", 1))),
                                           ("read", 1), ("include", "m1", None), ("assign", 1, 9), ("include", "m1", None), ("read", 1)))),
 ]
+
+
+# ---------------------------------------------------------------------------------------------
+# shrinking: one-step structural reductions of a program
+# ---------------------------------------------------------------------------------------------
+
+def expr_variants(e):
+    """Smaller expressions that could replace `e`: its sub-expressions, then a literal."""
+    k = e[0]
+    subs = []
+    if k == "bin":
+        subs = [e[2], e[3]]
+    elif k in ("neg", "not"):
+        subs = [e[1]]
+    elif k == "list":
+        subs = list(e[1])
+        for i in range(len(e[1])):
+            if len(e[1]) > 1:
+                yield ("list", e[1][:i] + e[1][i + 1:], e[2], e[3])
+    elif k == "map":
+        for i in range(len(e[1])):
+            if len(e[1]) > 1:
+                yield ("map", e[1][:i] + e[1][i + 1:])
+        subs = [v for _, v in e[1]]
+    elif k == "call":
+        subs = list(e[2]) + [x for _, x in e[3]]
+    elif k == "if":
+        subs = [e[2], e[3], e[1]]
+    elif k == "interp":
+        subs = [x for _, x in e[2] if x is not None]
+    for x in subs:
+        yield x
+    if k not in ("num", "bool", "null", "str", "var"):
+        yield ("num", Fraction(1))
+    # one level down
+    if k == "bin":
+        for v in expr_variants(e[2]):
+            yield ("bin", e[1], v, e[3])
+        for v in expr_variants(e[3]):
+            yield ("bin", e[1], e[2], v)
+    elif k in ("neg", "not"):
+        for v in expr_variants(e[1]):
+            yield (k, v)
+    elif k == "list":
+        for i, x in enumerate(e[1]):
+            for v in expr_variants(x):
+                yield ("list", e[1][:i] + (v,) + e[1][i + 1:], e[2], e[3])
+    elif k == "call":
+        for i, x in enumerate(e[2]):
+            for v in expr_variants(x):
+                yield ("call", e[1], e[2][:i] + (v,) + e[2][i + 1:], e[3], e[4])
+        for i, (n, x) in enumerate(e[3]):
+            for v in expr_variants(x):
+                yield ("call", e[1], e[2], e[3][:i] + ((n, v),) + e[3][i + 1:], e[4])
+    elif k == "if":
+        for j in (1, 2, 3):
+            for v in expr_variants(e[j]):
+                yield e[:j] + (v,) + e[j + 1:]
+
+
+def args_variants(a):
+    pos, named, rest = a
+    for i, x in enumerate(pos):
+        for v in expr_variants(x):
+            yield (pos[:i] + (v,) + pos[i + 1:], named, rest)
+    for i, (n, x) in enumerate(named):
+        for v in expr_variants(x):
+            yield (pos, named[:i] + ((n, v),) + named[i + 1:], rest)
+    if rest is not None:
+        for v in expr_variants(rest):
+            yield (pos, named, v)
+
+
+def stmt_variants(s):
+    """Variants of one statement (same kind, something inside made smaller)."""
+    k = s[0]
+    if k in ("decl",):
+        for v in expr_variants(s[2]):
+            yield (k, s[1], v)
+    elif k == "rule":
+        for b in body_variants(s[2]):
+            yield (k, s[1], b)
+    elif k == "var":
+        for v in expr_variants(s[2]):
+            yield (k, s[1], v, s[3], s[4])
+        if s[3] or s[4]:
+            yield (k, s[1], s[2], False, False)
+    elif k == "ifs":
+        cl, els = s[1], s[2]
+        for i, (c, b) in enumerate(cl):
+            if len(cl) > 1:
+                yield (k, cl[:i] + cl[i + 1:], els)
+            for v in expr_variants(c):
+                yield (k, cl[:i] + ((v, b),) + cl[i + 1:], els)
+            for b2 in body_variants(b):
+                yield (k, cl[:i] + ((c, b2),) + cl[i + 1:], els)
+        if els is not None:
+            yield (k, cl, None)
+            for b2 in body_variants(els):
+                yield (k, cl, b2)
+    elif k == "for":
+        for b in body_variants(s[5]):
+            yield s[:5] + (b,)
+        for j in (2, 3):
+            for v in expr_variants(s[j]):
+                yield s[:j] + (v,) + s[j + 1:]
+    elif k == "each":
+        for b in body_variants(s[3]):
+            yield s[:3] + (b,)
+        for v in expr_variants(s[2]):
+            yield s[:2] + (v,) + s[3:]
+    elif k == "while":
+        for b in body_variants(s[2]):
+            yield (k, s[1], b)
+    elif k in ("func", "mixin"):
+        for b in body_variants(s[3]):
+            yield s[:3] + (b,)
+        ps, rest = s[2]
+        for i, (n, d) in enumerate(ps):
+            if d is not None:
+                for v in expr_variants(d):
+                    yield (k, s[1], (ps[:i] + ((n, v),) + ps[i + 1:], rest), s[3])
+    elif k in ("ret", "debug", "warn", "error"):
+        for v in expr_variants(s[1]):
+            yield (k, v)
+    elif k == "incl":
+        for a in args_variants(s[2]):
+            yield (k, s[1], a, s[3])
+        if s[3] is not None:
+            for b in body_variants(s[3][1]):
+                yield (k, s[1], s[2], (s[3][0], b))
+    elif k == "content":
+        for a in args_variants(s[1]):
+            yield (k, a)
+
+
+def inner_bodies(s):
+    k = s[0]
+    if k in ("rule", "while"):
+        return [s[2]]
+    if k == "ifs":
+        return [b for _, b in s[1]] + ([s[2]] if s[2] is not None else [])
+    if k == "for":
+        return [s[5]]
+    if k == "each":
+        return [s[3]]
+    return []
+
+
+def body_variants(body):
+    for i, s in enumerate(body):
+        yield body[:i] + body[i + 1:]                       # delete a statement
+    for i, s in enumerate(body):
+        for b in inner_bodies(s):
+            yield body[:i] + b + body[i + 1:]               # replace a block by its body
+    for i, s in enumerate(body):
+        for v in stmt_variants(s):
+            yield body[:i] + (v,) + body[i + 1:]
+
+
+def shrink_candidates(prog):
+    return body_variants(prog)
